@@ -85,6 +85,9 @@ func pickInvocation(job *Job, run int) (gencore.Invocation, *gencore.Invocation)
 	mk := func() gencore.Invocation {
 		c := job.Corpus[t.Choose(len(job.Corpus), "corpus")]
 		inv := gencore.Invocation{Corpus: c.Name, SpecName: c.SpecName, Spec: c.Spec, HasConfig: c.HasConfig, Config: c.Config}
+		if !inv.HasConfig && t.Choose(3, "cors-config") == 0 {
+			inv.HasConfig, inv.Config = true, "cors:\n  enable: true\n"
+		}
 		inv.GenClient = t.Choose(2, "client") == 1
 		inv.APIHandler = t.Choose(8, "api") != 0
 		inv.DoNotEdit = t.Choose(2, "dne") == 1
@@ -105,6 +108,7 @@ type c12outcome struct {
 	deviated []int
 	h        int
 	toff     time.Duration
+	ambient  int
 	events   []string
 	skipped  string
 }
@@ -134,6 +138,7 @@ func (e *c12env) execC12(inv gencore.Invocation, other *gencore.Invocation, t *t
 		o.h = 0
 	}
 	o.toff = clockOffsets[t.Choose(len(clockOffsets), "clock")]
+	o.ambient = t.Choose(3, "ambient")
 	verifhook.Masked = map[int]bool{}
 	for _, m := range e.masked {
 		verifhook.Masked[m] = true
@@ -163,7 +168,7 @@ func (e *c12env) execC12(inv gencore.Invocation, other *gencore.Invocation, t *t
 		for i := range vals {
 			vals[i] = uint32(t.Choose(5040, "cli-order"))
 		}
-		r = gencore.RunCLI(e.job.CLI, inv, in, out, gencore.Sched{Active: active, ClockOffset: o.toff, FaultAt: -1}, vals, e.masked, filepath.Join(filepath.Dir(in), "plan.json"))
+		r = gencore.RunCLI(e.job.CLI, inv, in, out, gencore.Sched{Active: active, ClockOffset: o.toff, FaultAt: -1, Ambient: o.ambient}, vals, e.masked, filepath.Join(filepath.Dir(in), "plan.json"))
 		for _, v := range vals {
 			if v != 0 {
 				// attribution is not available from the child; deviated stays empty unless the log says so
@@ -171,7 +176,7 @@ func (e *c12env) execC12(inv gencore.Invocation, other *gencore.Invocation, t *t
 			}
 		}
 	} else {
-		r = gencore.RunInProcess(inv, in, out, gencore.Sched{Tape: t, Active: active, ClockOffset: o.toff, FaultAt: -1}, e.root)
+		r = gencore.RunInProcess(inv, in, out, gencore.Sched{Tape: t, Active: active, ClockOffset: o.toff, FaultAt: -1, Ambient: o.ambient}, e.root)
 	}
 	o.deviated = r.Deviated
 	o.events = r.Events
@@ -206,6 +211,9 @@ func (e *c12env) keyOf(o c12outcome) string {
 	}
 	if o.toff != 0 {
 		return "clock"
+	}
+	if o.ambient != 0 {
+		return "ambient:pid-hostname-env"
 	}
 	if o.h != 0 {
 		return historyNames[o.h]
@@ -252,9 +260,9 @@ func runC12(job *Job, res *Result) {
 		if len(o.deviated) > 0 {
 			res.Counters["runs_with_deviating_order"]++
 		}
-		nontrivial := len(o.deviated) > 0 || o.h != 0 || o.toff != 0
+		nontrivial := len(o.deviated) > 0 || o.h != 0 || o.toff != 0 || o.ambient != 0
 		if nontrivial && o.skipped == "" {
-			e.distinct[hash64(inv.Hash(), fmt.Sprint(o.deviated), strings.Join(o.events, "|"), fmt.Sprint(o.h, o.toff))] = true
+			e.distinct[hash64(inv.Hash(), fmt.Sprint(o.deviated), strings.Join(o.events, "|"), fmt.Sprint(o.h, o.toff, o.ambient))] = true
 		}
 		e.logH = hash64(fmt.Sprint(e.logH), fmt.Sprint(run), fmt.Sprint(t.Rec), fmt.Sprint(o.violated, o.class, o.detail), strings.Join(o.events, "|"))
 		if len(res.Samples) < 3 && len(o.deviated) > 0 {
@@ -354,7 +362,7 @@ func (e *c12env) shrinkC12(run int, inv gencore.Invocation, other *gencore.Invoc
 	e.masked = masked
 	o2 := e.execC12(inv, other, tr)
 	e.masked = nil
-	trace = append(trace, fmt.Sprintf("history=%s clock_offset=%s", historyNames[o2.h], o2.toff))
+	trace = append(trace, fmt.Sprintf("history=%s clock_offset=%s ambient=%d", historyNames[o2.h], o2.toff, o2.ambient))
 	trace = append(trace, o2.events...)
 	rp := Replay{Property: "C12", FindingKey: key, Seed: e.job.Seed, Run: run, Invocation: &inv, Tape: min, Masked: masked, Trace: trace,
 		Observed: o.class + ": " + o.detail, Expected: "byte-identical files to the sorted-order fresh run of the same invocation", SiteTable: e.job.Sites}
